@@ -186,6 +186,13 @@ where
         self.project().transport.get_pin_mut()
     }
 
+    /// Number of pending deadline timers (read-only verification accessor).
+    #[cfg(feature = "verif")]
+    #[doc(hidden)]
+    pub fn verif_deadline_timers(&self) -> usize {
+        self.in_flight_requests.verif_deadline_timers()
+    }
+
     fn in_flight_requests_mut<'a>(self: &'a mut Pin<&mut Self>) -> &'a mut InFlightRequests {
         self.as_mut().project().in_flight_requests
     }
